@@ -213,3 +213,36 @@ h!(q_with_arc_mut_clone_inside, {
     st.covers();
     forget(t);
 });
+
+
+// ---- a ThinArc hashes like the fat Arc it stands for (same sequence of writes into the Hasher)
+struct RecH {
+    n: usize,
+    sum: u64,
+}
+impl core::hash::Hasher for RecH {
+    fn finish(&self) -> u64 {
+        self.sum
+    }
+    fn write(&mut self, b: &[u8]) {
+        self.n += 1;
+        let mut acc = b.len() as u64;
+        if b.len() > 0 {
+            acc = acc.wrapping_mul(31).wrapping_add(b[0] as u64);
+        }
+        self.sum = self.sum.wrapping_mul(1_000_003).wrapping_add(acc);
+    }
+}
+h!(q_thin_hashes_like_fat, {
+    use core::hash::Hash;
+    let hv: u8 = kani::any();
+    let x: u8 = kani::any();
+    let a = Arc::from_header_and_iter(HeaderWithLength::new(hv, 2), (0..2).map(|i| if i == 0 { x } else { 9u8 }));
+    let mut h1 = RecH { n: 0, sum: 0 };
+    a.hash(&mut h1);
+    let t = Arc::into_thin(a);
+    let mut h2 = RecH { n: 0, sum: 0 };
+    t.hash(&mut h2);
+    assert!(h1.n == h2.n && h1.sum == h2.sum, "a ThinArc does not hash like the fat Arc it stands for");
+    forget(t);
+});
